@@ -139,13 +139,17 @@ example : (match tableInsert [((fun (_ : Bytes) => (7 : UInt64)) [1], 0)] 7 1 tr
 
 The model hashes the complete string with the table's hash function at every lookup, insert and in the
 rehash closure (`env.hash`, `rehashFn`).  The extractor lists every `let hash = …`, every `hash_one`
-call, every hash handed to the raw-entry API and every piece of hand-rolled hashing in `rodeo.rs`,
-`reader.rs` and `threaded_rodeo.rs`; all of them must be `hash_one` of one whole string (resp. the
-binding `hash`). -/
+call (or call of a private helper whose whole body is `hasher.hash_one(string)`), every hash handed to
+the raw-entry API, every closure handed to a table for re-hashing its entries on resize
+(`insert_with_hasher`, `find_or_find_insert_slot`, `shrink_to`) and every piece of hand-rolled hashing in
+`rodeo.rs`, `reader.rs` and `threaded_rodeo.rs`; all of them must be `hash_one` of one whole string
+(resp. the binding `hash`; for a re-hash closure: of a string the closure binds itself, never a captured
+hash value). -/
 theorem hash_sites_whole_string :
     (Extracted.hashSites.all fun s => s.shape == .hashOneWhole) = true ∧
     (Extracted.hashSites.any fun s => s.kind == .binding) = true ∧
-    (Extracted.hashSites.any fun s => s.kind == .use) = true := by
+    (Extracted.hashSites.any fun s => s.kind == .use) = true ∧
+    (Extracted.hashSites.any fun s => s.kind == .rehash) = true := by
   decide
 
 end Lasso.C02
